@@ -484,6 +484,26 @@ def m_range(*a):
     return _b.range(*a)
 
 
+def m_max(*a, **k):
+    if k or len(a) < 2 or not any(isinstance(x, Proxy) for x in a):
+        return _b.max(*a, **k)
+    r = a[0]
+    for x in a[1:]:
+        if x > r:
+            r = x
+    return r
+
+
+def m_min(*a, **k):
+    if k or len(a) < 2 or not any(isinstance(x, Proxy) for x in a):
+        return _b.min(*a, **k)
+    r = a[0]
+    for x in a[1:]:
+        if x < r:
+            r = x
+    return r
+
+
 def m_bool(x=False):
     if isinstance(x, SBool):
         return x
@@ -528,7 +548,7 @@ def guard_builtin(name, f):
     return g
 
 
-MODELS = {'len': m_len, 'ord': m_ord, 'isinstance': m_isinstance, 'range': m_range, 'bool': BoolModel}
+MODELS = {'len': m_len, 'ord': m_ord, 'isinstance': m_isinstance, 'range': m_range, 'bool': BoolModel, 'max': m_max, 'min': m_min}
 # builtins that are safe on proxies without a model (they only store / compare by identity / dispatch)
 PASS = {'type', 'id', 'getattr', 'setattr', 'hasattr', 'callable', 'super', 'object', 'property',
         'staticmethod', 'classmethod', 'issubclass', 'print', '__build_class__', '__import__',
